@@ -1,5 +1,6 @@
 import Sop.Model.StoreRepo
 import Sop.Lemmas.StoreRepoLock
+import Sop.Model.StoreRepoCommit
 /-!
 # C12 — creating and removing stores is transactional and complete
 
@@ -15,6 +16,17 @@ Theorems over `Sop.StoreRepo` (the model of `NewBtree` / `OpenBtree` / `Rollback
 * `create_race_legacy_counterexample` — on the unrepaired tree the loser's cleanup deletes the winner's store;
 * `remove_complete` — `RemoveBtree(n)` followed by `NewBtree(n, o')` creates a fresh, empty store with options `o'`;
 * `names_nodup_step` — the catalogue never lists a name twice.
+
+`Commit` as ONE step hides the rounds of the phase-1 loop; over `Sop.StoreRepoCommit` (one transaction's Commit round
+by round: conflict round = partial rollback, last round ok / failed before or after logging again; other committers'
+whole transactions between any two of its steps), namespace `Sop.C12.Commit`:
+
+* `abort_leaves_no_created_store` — whatever the interleaving, a transaction that ended without committing (failed
+  `NewBtree`/`OpenBtree`, failed last round after any number of conflict rounds, explicit `Rollback`) leaves no store
+  it created, and already after a conflict round its created stores are gone (`conflict_removes_created`);
+  `commit_keeps_created` — if it committed, every store it created is there;
+* `abort_forgetful_counterexample` — with a partial rollback that keeps the created stores but still rewinds the log
+  state, `begin; NewBtree(sn); conflict round; last round fails before logging` ends failed with `sn` in the catalogue.
 
 The atomicity of one `StoreRepository.Add` assumed above is itself proved one level below, over
 `Sop.StoreRepoLock` (one step per program point of `Add`: lock, read the list, check, write, cache, unlock), for
@@ -724,3 +736,256 @@ theorem add_race_outside_counterexample : ¬ Statement_add_race true := by
   exact absurd this (by decide)
 
 end Sop.C12.Lock
+
+/-! ## Commit rounds: a transaction that created a store and does not commit leaves none -/
+namespace Sop.C12.Commit
+open Sop.StoreRepo (Store Opened Opts has erase eraseAll names createdNames lookup applyCounts applyItems addLast insertSorted)
+open Sop.StoreRepoCommit
+
+/-- `N` = the names `T` may create. The other transactions create no store of such a name and do not `RemoveBtree`
+one (both are destructive on a name in use, see the assumptions of `create_race`). -/
+def Calm (N : List String) : Op → Prop
+  | .new n _ => n ∈ N
+  | .otherNew n _ => n ∉ N
+  | .otherRemove n => n ∉ N
+  | _ => True
+
+structure CInv (N : List String) (s : StoreRepoCommit.State) : Prop where
+  sub : ∀ n ∈ created s, n ∈ N
+  idle : s.phase = .idle → created s = []
+  live : s.phase = .live → (created s ≠ [] → s.logged = true) ∧ ∀ n ∈ created s, has s.disk n = true
+  retry : s.phase = .retry → ∀ n ∈ created s, has s.disk n = false
+  failed : s.phase = .failed → ∀ n ∈ created s, has s.disk n = false
+  committed : s.phase = .committed → ∀ n ∈ created s, has s.disk n = true
+
+theorem has_eraseAll_mem {d : List Store} {ns : List String} {n : String} (h : n ∈ ns) : has (eraseAll d ns) n = false := by
+  rw [Sop.C12.has_false_iff]
+  intro st hst
+  have := (Sop.C12.mem_eraseAll.mp hst).2
+  intro e; exact this (e ▸ h)
+
+theorem has_of_names {d d' : List Store} (h : names d' = names d) (n : String) : has d' n = has d n := by
+  have e : ∀ d : List Store, has d n = (names d).any (fun m => decide (m = n)) := by
+    intro d; simp [has, names, List.any_map, Function.comp_def]
+  rw [e, e, h]
+
+theorem removeCreated_gone {s : StoreRepoCommit.State}
+    (h : (created s ≠ [] → s.logged = true) ∨ ∀ n ∈ created s, has s.disk n = false) :
+    ∀ n ∈ created s, has (removeCreated s) n = false := by
+  intro n hn
+  unfold removeCreated
+  split
+  · exact has_eraseAll_mem hn
+  · rename_i hl
+    rcases h with h | h
+    · exact absurd (h (List.ne_nil_of_mem hn)) hl
+    · exact h n hn
+
+theorem created_finalRollback (s : StoreRepoCommit.State) : created (finalRollback s) = created s := rfl
+
+theorem cinv_final {N : List String} {s : StoreRepoCommit.State} (hsub : ∀ n ∈ created s, n ∈ N)
+    (h : (created s ≠ [] → s.logged = true) ∨ ∀ n ∈ created s, has s.disk n = false) : CInv N (finalRollback s) :=
+  ⟨hsub, fun hp => (by cases hp), fun hp => (by cases hp), fun hp => (by cases hp), fun _ => (show ∀ n ∈ created s, has (removeCreated s) n = false from removeCreated_gone h), fun hp => (by cases hp)⟩
+
+theorem has_append_other {d : List Store} {st : Store} {n : String} (hne : st.name ≠ n) : has (d ++ [st]) n = has d n := by
+  simp [has, hne]
+
+theorem has_erase_other {d : List Store} {m n : String} (hne : m ≠ n) : has (erase d m) n = has d n := by
+  cases hd : has d n with
+  | false =>
+    rw [Sop.C12.has_false_iff] at hd ⊢
+    intro st hst; exact hd st (Sop.C12.mem_erase.mp hst).1
+  | true =>
+    rw [Sop.C12.has_iff] at hd ⊢
+    obtain ⟨st, hst, hn⟩ := hd
+    exact ⟨st, Sop.C12.mem_erase.mpr ⟨hst, fun e => hne (e ▸ hn.symm ▸ rfl)⟩, hn⟩
+
+/-- an environment step that leaves `has · n` alone for every created name keeps the invariant -/
+theorem cinv_env {N : List String} {s : StoreRepoCommit.State} (h : CInv N s) (d' : List Store) (nx : Nat)
+    (hd : ∀ n ∈ created s, has d' n = has s.disk n) : CInv N { s with disk := d', next := nx } := by
+  refine ⟨h.sub, h.idle, fun hp => ⟨(h.live hp).1, fun n hn => ?_⟩, fun hp n hn => ?_, fun hp n hn => ?_, fun hp n hn => ?_⟩
+  · exact (hd n hn).trans ((h.live hp).2 n hn)
+  · exact (hd n hn).trans (h.retry hp n hn)
+  · exact (hd n hn).trans (h.failed hp n hn)
+  · exact (hd n hn).trans (h.committed hp n hn)
+
+/-- a step of `T` that changes neither the catalogue nor the set of created names, the phase or the log state -/
+theorem cinv_congr {N : List String} {s s' : StoreRepoCommit.State} (h : CInv N s) (hd : s'.disk = s.disk)
+    (hc : created s' = created s) (hp : s'.phase = s.phase) (hl : s'.logged = s.logged) : CInv N s' := by
+  refine ⟨?_, ?_, ?_, ?_, ?_, ?_⟩
+  · rw [hc]; exact h.sub
+  · rw [hc, hp]; exact h.idle
+  · rw [hc, hp, hl, hd]; exact h.live
+  · rw [hc, hp, hd]; exact h.retry
+  · rw [hc, hp, hd]; exact h.failed
+  · rw [hc, hp, hd]; exact h.committed
+
+theorem has_append_mono {d : List Store} {st : Store} {n : String} (h : has d n = true) : has (d ++ [st]) n = true := by
+  simp [has] at h ⊢; exact Or.inl h
+
+theorem has_append_self (d : List Store) (st : Store) : has (d ++ [st]) st.name = true := by
+  simp [has]
+
+theorem created_append_created (os : List Opened) (n : String) (r : Nat) :
+    createdNames (os ++ [{ name := n, root := r, created := true, adds := [] }]) = createdNames os ++ [n] := by
+  simp [createdNames, List.filter_append]
+
+theorem cinv_step {N : List String} {s : StoreRepoCommit.State} (h : CInv N s) (op : StoreRepoCommit.Op) (hc : Calm N op) :
+    CInv N (step false s op).1 := by
+  cases op with
+  | begin =>
+    simp only [step]; split
+    · rename_i hp
+      have hc0 := h.idle hp
+      refine ⟨h.sub, fun hp' => (by cases hp'), fun _ => ⟨fun hne => absurd hc0 hne, ?_⟩, fun hp' => (by cases hp'),
+        fun hp' => (by cases hp'), fun hp' => (by cases hp')⟩
+      intro n hn; simp only [created] at hn hc0; rw [hc0] at hn; cases hn
+    · exact h
+  | new n o =>
+    simp only [step]; split
+    · exact h
+    · rename_i hp
+      have hp : s.phase = .live := by simpa using hp
+      split
+      · split
+        · split
+          · exact h
+          · exact cinv_congr h rfl (Sop.C12.createdNames_append_opened _ _ rfl) rfl rfl
+        · exact cinv_final h.sub (Or.inl (h.live hp).1)
+      · have hcr := created_append_created s.opened n s.next
+        refine ⟨?_, ?_, ?_, ?_, ?_, ?_⟩
+        · intro m hm; simp only [created] at hm; rw [hcr] at hm
+          rcases List.mem_append.mp hm with hm | hm
+          · exact h.sub m hm
+          · rw [List.mem_singleton.mp hm]; exact hc
+        · intro hp'; rw [hp] at hp'; cases hp'
+        · intro _
+          refine ⟨fun _ => rfl, ?_⟩
+          intro m hm; simp only [created] at hm; rw [hcr] at hm
+          rcases List.mem_append.mp hm with hm | hm
+          · exact has_append_mono ((h.live hp).2 m hm)
+          · rw [List.mem_singleton.mp hm]; exact has_append_self _ _
+        · intro hp'; rw [hp] at hp'; cases hp'
+        · intro hp'; rw [hp] at hp'; cases hp'
+        · intro hp'; rw [hp] at hp'; cases hp'
+  | open_ n =>
+    simp only [step]; split
+    · exact h
+    · rename_i hp
+      have hp : s.phase = .live := by simpa using hp
+      split
+      · exact h
+      · split
+        · exact cinv_congr h rfl (Sop.C12.createdNames_append_opened _ _ rfl) rfl rfl
+        · exact cinv_final h.sub (Or.inl (h.live hp).1)
+  | add n k v =>
+    simp only [step]; split
+    · exact cinv_congr h rfl (Sop.C12.createdNames_addLast _ _ _) rfl rfl
+    · exact h
+  | conflict =>
+    simp only [step]; split
+    · refine ⟨h.sub, fun hp' => (by cases hp'), fun hp' => (by cases hp'), fun _ n hn => ?_, fun hp' => (by cases hp'), fun hp' => (by cases hp')⟩
+      show has (removeCreated { s with logged := true }) n = false
+      exact removeCreated_gone (s := { s with logged := true }) (Or.inl fun _ => rfl) n hn
+    · exact h
+  | finish ok relogged =>
+    simp only [step]; split
+    · rename_i hph
+      split
+      · rename_i hr
+        exact cinv_final h.sub (Or.inr (h.retry hr.1))
+      · rename_i hr
+        split
+        · -- success
+          have hnames : names (applyCounts (s.opened.foldl applyItems s.disk) s.opened) = names s.disk := by
+            rw [Sop.C12.names_applyCounts, Sop.C12.names_foldl_applyItems]
+          refine ⟨h.sub, fun hp' => (by cases hp'), fun hp' => (by cases hp'), fun hp' => (by cases hp'), fun hp' => (by cases hp'), fun _ n hn => ?_⟩
+          show has (applyCounts (s.opened.foldl applyItems s.disk) s.opened) n = true
+          rw [has_of_names hnames]
+          rcases hph with hl | hrt
+          · exact (h.live hl).2 n hn
+          · have : ¬ ((created s).any fun n => !has s.disk n) = true := fun e => hr ⟨hrt, e⟩
+            simp only [List.any_eq_true, Bool.not_eq_true', not_exists, not_and, Bool.not_eq_false] at this
+            exact this n hn
+        · refine cinv_final (s := { s with logged := s.logged || relogged }) h.sub ?_
+          rcases hph with hl | hrt
+          · exact Or.inl fun hne => by simp [(h.live hl).1 hne]
+          · exact Or.inr (h.retry hrt)
+    · exact h
+  | rollback =>
+    simp only [step]; split
+    · rename_i hp; exact cinv_final h.sub (Or.inl (h.live hp).1)
+    · exact h
+  | otherAdd n k v =>
+    simp only [step]
+    refine cinv_env h _ s.next fun m _ => has_of_names ?_ m
+    simp only [names, List.map_map]
+    apply List.map_congr_left
+    intro st _; simp only [Function.comp]; split <;> rfl
+  | otherNew m o =>
+    simp only [step]; split
+    · exact h
+    · exact cinv_env h _ _ fun n hn => has_append_other (fun e => hc (by rw [show m = n from e]; exact h.sub n hn))
+  | otherRemove m =>
+    simp only [step]
+    exact cinv_env h _ s.next fun n hn => has_erase_other (fun e => hc (by rw [e]; exact h.sub n hn))
+
+theorem cinv_run {N : List String} (ops : List StoreRepoCommit.Op) : ∀ {s : StoreRepoCommit.State}, CInv N s → (∀ op ∈ ops, Calm N op) →
+    CInv N (StoreRepoCommit.run false s ops) := by
+  induction ops with
+  | nil => intro s h _; exact h
+  | cons op ops ih =>
+    intro s h hc
+    exact ih (cinv_step h op (hc op (List.mem_cons_self ..))) (fun o ho => hc o (List.mem_cons_of_mem _ ho))
+
+theorem cinv_start (N : List String) (d : List Store) (nx : Nat) : CInv N { disk := d, next := nx } :=
+  ⟨fun _ hn => (by cases hn), fun _ => rfl, fun hp => (by cases hp), fun hp => (by cases hp), fun hp => (by cases hp), fun hp => (by cases hp)⟩
+
+/-- **A transaction that ends without committing leaves no store it created**, whatever the catalogue was, whatever
+`T` did (any `NewBtree`/`OpenBtree`/adds, any number of conflict rounds, a last round failing before or after it
+logged again, an explicit `Rollback`, a failed `NewBtree`/`OpenBtree`), and however the whole transactions of other
+committers interleave with its steps. -/
+theorem abort_leaves_no_created_store (N : List String) (d : List Store) (nx : Nat) (ops : List StoreRepoCommit.Op)
+    (hc : ∀ op ∈ ops, Calm N op) :
+    let s := StoreRepoCommit.run false { disk := d, next := nx } ops
+    s.phase = .failed → ∀ n ∈ created s, has s.disk n = false :=
+  (cinv_run ops (cinv_start N d nx) hc).failed
+
+/-- already while the commit is retrying after a conflict round the created stores are gone -/
+theorem conflict_removes_created (N : List String) (d : List Store) (nx : Nat) (ops : List StoreRepoCommit.Op)
+    (hc : ∀ op ∈ ops, Calm N op) :
+    let s := StoreRepoCommit.run false { disk := d, next := nx } ops
+    s.phase = .retry → ∀ n ∈ created s, has s.disk n = false :=
+  (cinv_run ops (cinv_start N d nx) hc).retry
+
+/-- if it committed, every store it created exists -/
+theorem commit_keeps_created (N : List String) (d : List Store) (nx : Nat) (ops : List StoreRepoCommit.Op)
+    (hc : ∀ op ∈ ops, Calm N op) :
+    let s := StoreRepoCommit.run false { disk := d, next := nx } ops
+    s.phase = .committed → ∀ n ∈ created s, has s.disk n = true :=
+  (cinv_run ops (cinv_start N d nx) hc).committed
+
+def leakOps : List StoreRepoCommit.Op := [.begin, .open_ "se", .new "sn" ⟨4, true⟩, .add "sn" 10 "a", .otherAdd "se" 5 "x", .conflict, .finish false false]
+
+def leakStart : StoreRepoCommit.State := { disk := [{ name := "se", root := 1, opts := ⟨8, true⟩, count := 4, items := [] }], next := 2 }
+
+/-- the hypotheses of the theorems are satisfiable by this history -/
+theorem leakOps_calm : ∀ op ∈ leakOps, Calm ["sn"] op := by
+  intro op hop
+  simp only [leakOps, List.mem_cons, List.mem_nil_iff, or_false] at hop
+  rcases hop with rfl | rfl | rfl | rfl | rfl | rfl | rfl <;> simp [Calm]
+
+/-- the partial rollback that keeps created stores but rewinds the log state: the transaction ends failed and `sn`
+is still in the catalogue -/
+theorem abort_forgetful_counterexample :
+    let s := StoreRepoCommit.run true leakStart leakOps
+    s.phase = .failed ∧ created s = ["sn"] ∧ has s.disk "sn" = true := by
+  decide +kernel
+
+/-- the same history on the code's partial rollback: failed, `sn` gone (by the theorem; here evaluated) -/
+theorem abort_witness :
+    let s := StoreRepoCommit.run false leakStart leakOps
+    s.phase = .failed ∧ created s = ["sn"] ∧ has s.disk "sn" = false ∧ has s.disk "se" = true := by
+  decide +kernel
+
+end Sop.C12.Commit
